@@ -1,2 +1,8 @@
-import Adsg.Proofs.Closure
-#print axioms Adsg.mem_closure_iff_reach
+import Adsg.Props.C01
+#print axioms Adsg.C01.decode_valid
+#print axioms Adsg.C01.decodeRef_valid
+#print axioms Adsg.C01.decode_enumerated
+#print axioms Adsg.C01.decode_arch
+#print axioms Adsg.C01.decode_shape
+#print axioms Adsg.C01.no_feasible_no_decoder
+#print axioms Adsg.C01.feasible_iff_designs
